@@ -65,12 +65,16 @@ func pushedSliceVar(info *types.Info, arg ast.Expr) types.Object {
 			sl = x.Args[2]
 		}
 	case *ast.CompositeLit:
-		for i, el := range x.Elts {
+		// the payload is the field of slice type of the batch (whatever it is called)
+		isSliceT := func(t types.Type) bool { _, ok := t.Underlying().(*types.Slice); return ok }
+		for _, el := range x.Elts {
 			if kv, ok := el.(*ast.KeyValueExpr); ok {
-				if id, ok := kv.Key.(*ast.Ident); ok && id.Name == "slice" {
-					sl = kv.Value
+				if id, ok := kv.Key.(*ast.Ident); ok {
+					if fv, ok := info.ObjectOf(id).(*types.Var); ok && fv.IsField() && isSliceT(fv.Type()) {
+						sl = kv.Value
+					}
 				}
-			} else if i == 1 {
+			} else if tv, ok := info.Types[el]; ok && isSliceT(tv.Type) {
 				sl = el
 			}
 		}
